@@ -188,7 +188,7 @@ def _minors_disagree(case, f):
     if "'id' is a required property" in d.get("error", ""):
         return d.get("declared_minor") == 5 and min(ms) < 5 and "id" not in c
     if "'id' was unexpected" in d.get("error", ""):
-        return d.get("declared_minor", 5) < 5 and max(ms) >= 5 and _src(c) not in MARKER_SOURCES
+        return d.get("declared_minor", 5) < 5 and max(ms) >= 5
     return False
 
 
@@ -276,7 +276,6 @@ def _both_sides_change_cell_type(case, f):
 DISCRIMINATORS = {
     "both_sides_change_cell_type": _both_sides_change_cell_type,
     "one_side_changes_cell_type_other_edits_type_specific_field": _type_change_vs_field_edit,
-    "marker_cell_with_id_before_4_5": _marker_cell_with_id_before_4_5,
     "dict_valued_id_of_similar_insert": _dict_valued_id_of_similar_insert,
     "input_minors_disagree_about_ids": _minors_disagree,
 }
